@@ -128,6 +128,18 @@ def world_oracle(tr):
         return 'xxe', 'content of the canary file appears in the response'
     if tr['body_class'] in ('unparseable', 'envelope-without-body'):
         return 'malformed-response', f'status {tr["status"]} with a body that is {tr["body_class"]}'
+    f = tr['frame']
+    if f and not f.get('get') and not f.get('returned'):
+        # the exception left do_post; whatever the request handler makes of it, the peer gets no response / no SOAP fault
+        return 'middleware-exception', (f'{f.get("propagated")} left MessageConverterMiddleware.do_post (parse stage: '
+                                        f'{f.get("parse_exc") or f.get("parse")}, dispatch stage: {f.get("dispatch_exc") or f.get("dispatch")}); '
+                                        f'the peer got status {tr["status"]} with a body that is {tr["body_class"]}')
+    if f and f.get('get') and not f.get('returned'):
+        return 'middleware-exception', f'{f.get("propagated")} left MessageConverterMiddleware.do_get'
+    if tr['method'] == 'POST' and tr['entered'][:1] == ['do_POST'] and tr['path_class'] == 0 and tr['read_ok'][:1] == [True] \
+            and tr['body_class'] not in ('fault', 'response') and not (tr['body_class'] == 'empty' and tr['status'] == 200):
+        # the request reached a registered component: the answer must be its response or a parsable SOAP fault
+        return 'not-soap', f'POST to a registered path answered with status {tr["status"]} and a body that is {tr["body_class"]}'
     if tr['frame'] and not tr['frame'].get('get') and tr['frame'].get('returned'):
         # the middleware answered: must be a SOAP envelope; >= 400 must carry a well-formed Fault
         if tr['body_class'] not in ('fault', 'response', 'empty'):
